@@ -108,7 +108,7 @@ KANI_GROUPS = {
         src="kani/ohlcv.rs", append_to="src/core/ohlcv.rs", module="core::ohlcv::verif_ohlcv",
         harnesses=[dict(name=n, kind="complete", timeout=600, tier="quick") for n in
                    ["vk_ohlcv_source_dispatch", "vk_ohlcv_clv_zero_range", "vk_ohlcv_validate"]]
-                  + [dict(name="vk_ohlcv_tr_close", kind="complete", timeout=3000, tier="thorough")]),
+                  + [dict(name="vk_ohlcv_tr_close", kind="bounded(integer-valued prices: every i16 triple with high >= low)", timeout=900, tier="thorough")]),
     "methods": dict(
         src="kani/methods.rs", append_to="src/methods/mod.rs", module="methods::verif_methods",
         harnesses=[
@@ -400,7 +400,7 @@ PROPS["C18"] = dict(
     claim=("tp, hl2, ohlc4, volumed_price, source(kind), clv (incl. the zero-range branch and |clv| <= 1 for an ordered candle), tr_close == max(h-l, |h-pc|, |l-pc|) "
            "for h >= l, tr, and Candle + Candle (with associativity as a lemma) are verified over exact reals against their formulas for an arbitrary "
            "OHLCV implementation; validate, the source dispatch and the clv zero-range branch are additionally proved bit-precisely for every f64 candle "
-           "(NaN/inf included) by loop-free Kani harnesses. The bit-precise tr_close identity runs in the thorough tier. Text forms of Source: from_str (its `match` over the "
+           "(NaN/inf included) by loop-free Kani harnesses. The bit-level tr_close identity on integer-valued prices (bounded) runs in the thorough tier; over all finite f64 it did not finish and is not claimed. Text forms of Source: from_str (its `match` over the "
            "normalised text turned into a str_eq chain by rule R9) is verified to accept exactly the eight names and the alias hlc3 and to reject everything else with Err; the conversion to "
            "&str yields the canonical name; source_text_roundtrip proves that the text of every source parses back to the same source."),
     assumptions=[REALS + " for the arithmetic identities (float + on volumes is not associative; the lemma is the ideal-arithmetic reading)",
